@@ -370,6 +370,14 @@ def from_ast(e: ast.AST, env: Env) -> Term:
         fs = norm(e.func)
         if fs in TRANSPARENT or fs.split('.')[-1] == 'cast':
             return from_ast(e.args[-1], env)
+        # re-shapings that keep every element (the terms are elementwise / reductions over all elements)
+        if fs in ('np.ravel', 'np.atleast_1d', 'np.atleast_2d', 'np.ascontiguousarray', 'np.copy') and len(e.args) == 1 \
+                and all(k.arg in ('order',) for k in e.keywords):
+            return from_ast(e.args[0], env)
+        if isinstance(e.func, ast.Attribute) and e.func.attr in ('ravel', 'flatten', 'copy') and not e.keywords \
+                and len(e.args) <= 1 and all(isinstance(a_, ast.Constant) for a_ in e.args) \
+                and not (isinstance(e.func.value, ast.Name) and e.func.value.id in ('np', 'numpy', 'math', 'copy')):
+            return from_ast(e.func.value, env)
         if isinstance(e.func, ast.Attribute) and e.func.attr in ('sum', 'mean') and not e.args and not e.keywords \
                 and not (isinstance(e.func.value, ast.Name) and e.func.value.id in ('np', 'numpy', 'math')):
             return t_call(e.func.attr, [from_ast(e.func.value, env)])           # x.sum() is np.sum(x)
